@@ -18,10 +18,11 @@
    that the automaton is in a terminal accepting state after `print r` (self-delimiting) is a
    THEOREM (C04_self_delimiting), not a hypothesis.  Statements only; proofs in Decoder/C04Main.v and the files it imports.
 
-   `proved_family r` is true for every report except `RSgr`: an SGR sequence denotes a face
-   modification, which is characterised by its meaning (C04_sgr_event, via the reference SGR
-   machine of C06) rather than by one canonical record; hence the `_partial` suffix of the two
-   headline theorems, whose statement for all other families is the full one. *)
+   `proved_family r` is true for every report except: `RSgr` (an SGR sequence denotes a face
+   modification, characterised by its meaning: C04_sgr_event), `RXterm` with a modifier mask >= 8
+   (known finding C04-key-mask: C04_key_mask8_refuted) and `RFaceReport` with one of 7/27/39/49
+   (known finding: C04_face_report_recorded states the recorded behaviour for every well-formed
+   parameter string).  Hence the `_partial` suffix of the two headline theorems. *)
 From Coq Require Import List NArith Bool.
 From SNT Require Import Base.Outcome Automata.DfaData Automata.Tokenizer.
 From SNT Require Import Render.FaceModel Decoder.SgrRef.
